@@ -50,6 +50,9 @@ func (vfs *MemFS) searchNode(path string, slMode slMode) (
 	absPath, _ := vfs.Abs(path)
 	pi = avfs.NewPathIterator[*MemFS](vfs, absPath)
 
+	// a path ending with a separator can only lead to a directory.
+	trailingSep := len(path) > 1 && vfs.IsPathSeparator(path[len(path)-1])
+
 	volNode := vfs.rootNode
 
 	if pi.VolumeNameLen() > 0 {
@@ -119,7 +122,7 @@ func (vfs *MemFS) searchNode(path string, slMode slMode) (
 
 		case *fileNode:
 			// File permissions are checked by the calling function.
-			if pi.IsLast() {
+			if pi.IsLast() && !trailingSep {
 				err = vfs.err.FileExists
 
 				return
